@@ -1127,6 +1127,8 @@ unsafe fn owned_box_and_drop<T>(ptr: *mut ()) {
 
 unsafe fn owned_clone(data: &AtomicPtr<()>, ptr: *const u8, len: usize) -> Bytes {
     let owned = data.load(Ordering::Relaxed);
+    #[cfg(tokio_rs_bytes_verif)]
+    crate::verif::point(crate::verif::pt::OWNED_CLONE_ENTRY);
     let ref_cnt = &(*owned.cast::<OwnedLifetime>()).ref_cnt;
     let old_cnt = ref_cnt.fetch_add(1, Ordering::Relaxed);
     if old_cnt > usize::MAX >> 1 {
@@ -1159,8 +1161,12 @@ unsafe fn owned_is_unique(_data: &AtomicPtr<()>) -> bool {
 unsafe fn owned_drop_impl(owned: *mut ()) {
     let lifetime = owned.cast::<OwnedLifetime>();
     let ref_cnt = &(*lifetime).ref_cnt;
+    #[cfg(tokio_rs_bytes_verif)]
+    crate::verif::point(crate::verif::pt::OWNED_DROP_ENTRY);
 
     let old_cnt = ref_cnt.fetch_sub(1, Ordering::Release);
+    #[cfg(tokio_rs_bytes_verif)]
+    crate::verif::point(crate::verif::pt::OWNED_DROP_AFTER_SUB);
     debug_assert!(
         old_cnt > 0 && old_cnt <= usize::MAX >> 1,
         "expected non-zero refcount and no underflow"
@@ -1208,6 +1214,8 @@ static PROMOTABLE_ODD_VTABLE: Vtable = Vtable {
 unsafe fn promotable_even_clone(data: &AtomicPtr<()>, ptr: *const u8, len: usize) -> Bytes {
     let shared = data.load(Ordering::Acquire);
     let kind = shared as usize & KIND_MASK;
+    #[cfg(tokio_rs_bytes_verif)]
+    crate::verif::point(crate::verif::pt::PROMOTABLE_CLONE_LOADED);
 
     if kind == KIND_ARC {
         shallow_clone_arc(shared.cast(), ptr, len)
@@ -1226,6 +1234,8 @@ unsafe fn promotable_to_vec(
 ) -> Vec<u8> {
     let shared = data.load(Ordering::Acquire);
     let kind = shared as usize & KIND_MASK;
+    #[cfg(tokio_rs_bytes_verif)]
+    crate::verif::point(crate::verif::pt::PROMOTABLE_TO_VEC_LOADED);
 
     if kind == KIND_ARC {
         shared_to_vec_impl(shared.cast(), ptr, len)
@@ -1252,6 +1262,8 @@ unsafe fn promotable_to_mut(
 ) -> BytesMut {
     let shared = data.load(Ordering::Acquire);
     let kind = shared as usize & KIND_MASK;
+    #[cfg(tokio_rs_bytes_verif)]
+    crate::verif::point(crate::verif::pt::PROMOTABLE_TO_MUT_LOADED);
 
     if kind == KIND_ARC {
         shared_to_mut_impl(shared.cast(), ptr, len)
@@ -1303,6 +1315,8 @@ unsafe fn promotable_even_drop(data: &mut AtomicPtr<()>, ptr: *const u8, len: us
 unsafe fn promotable_odd_clone(data: &AtomicPtr<()>, ptr: *const u8, len: usize) -> Bytes {
     let shared = data.load(Ordering::Acquire);
     let kind = shared as usize & KIND_MASK;
+    #[cfg(tokio_rs_bytes_verif)]
+    crate::verif::point(crate::verif::pt::PROMOTABLE_CLONE_LOADED);
 
     if kind == KIND_ARC {
         shallow_clone_arc(shared as _, ptr, len)
@@ -1402,6 +1416,8 @@ unsafe fn shared_to_vec_impl(shared: *mut Shared, ptr: *const u8, len: usize) ->
         .compare_exchange(1, 0, Ordering::AcqRel, Ordering::Relaxed)
         .is_ok()
     {
+        #[cfg(tokio_rs_bytes_verif)]
+        crate::verif::point(crate::verif::pt::TO_VEC_CAS_OK);
         // Deallocate the `Shared` instance without running its destructor.
         let shared = *Box::from_raw(shared);
         let shared = ManuallyDrop::new(shared);
@@ -1413,6 +1429,8 @@ unsafe fn shared_to_vec_impl(shared: *mut Shared, ptr: *const u8, len: usize) ->
 
         Vec::from_raw_parts(buf, len, cap)
     } else {
+        #[cfg(tokio_rs_bytes_verif)]
+        crate::verif::point(crate::verif::pt::TO_VEC_CAS_FAIL);
         let v = slice::from_raw_parts(ptr, len).to_vec();
         release_shared(shared);
         v
@@ -1437,6 +1455,8 @@ unsafe fn shared_to_mut_impl(shared: *mut Shared, ptr: *const u8, len: usize) ->
     //
     // Otherwise, we take the other branch, copy the data and call `release_shared`.
     if (*shared).ref_cnt.load(Ordering::Acquire) == 1 {
+        #[cfg(tokio_rs_bytes_verif)]
+        crate::verif::point(crate::verif::pt::TO_MUT_UNIQUE);
         // Deallocate the `Shared` instance without running its destructor.
         let shared = *Box::from_raw(shared);
         let shared = ManuallyDrop::new(shared);
@@ -1451,6 +1471,8 @@ unsafe fn shared_to_mut_impl(shared: *mut Shared, ptr: *const u8, len: usize) ->
         b.advance_unchecked(off);
         b
     } else {
+        #[cfg(tokio_rs_bytes_verif)]
+        crate::verif::point(crate::verif::pt::TO_MUT_SHARED);
         // Copy the data from Shared in a new Vec, then release it
         let v = slice::from_raw_parts(ptr, len).to_vec();
         release_shared(shared);
@@ -1475,6 +1497,8 @@ unsafe fn shared_drop(data: &mut AtomicPtr<()>, _ptr: *const u8, _len: usize) {
 }
 
 unsafe fn shallow_clone_arc(shared: *mut Shared, ptr: *const u8, len: usize) -> Bytes {
+    #[cfg(tokio_rs_bytes_verif)]
+    crate::verif::point(crate::verif::pt::CLONE_ARC_ENTRY);
     let old_size = (*shared).ref_cnt.fetch_add(1, Ordering::Relaxed);
 
     if old_size > usize::MAX >> 1 {
@@ -1518,6 +1542,8 @@ unsafe fn shallow_clone_vec(
     });
 
     let shared = Box::into_raw(shared);
+    #[cfg(tokio_rs_bytes_verif)]
+    crate::verif::point(crate::verif::pt::CLONE_VEC_BEFORE_CAS);
 
     // The pointer should be aligned, so this assert should
     // always succeed.
@@ -1537,6 +1563,8 @@ unsafe fn shallow_clone_vec(
     // pointed to by `actual` will be visible.
     match atom.compare_exchange(ptr as _, shared as _, Ordering::AcqRel, Ordering::Acquire) {
         Ok(actual) => {
+            #[cfg(tokio_rs_bytes_verif)]
+            crate::verif::point(crate::verif::pt::CLONE_VEC_CAS_OK);
             debug_assert!(actual as usize == ptr as usize);
             // The upgrade was successful, the new handle can be
             // returned.
@@ -1548,6 +1576,8 @@ unsafe fn shallow_clone_vec(
             }
         }
         Err(actual) => {
+            #[cfg(tokio_rs_bytes_verif)]
+            crate::verif::point(crate::verif::pt::CLONE_VEC_CAS_LOST);
             // The upgrade failed, a concurrent clone happened. Release
             // the allocation that was made in this thread, it will not
             // be needed.
@@ -1562,8 +1592,12 @@ unsafe fn shallow_clone_vec(
 }
 
 unsafe fn release_shared(ptr: *mut Shared) {
+    #[cfg(tokio_rs_bytes_verif)]
+    crate::verif::point(crate::verif::pt::RELEASE_ENTRY);
     // `Shared` storage... follow the drop steps from Arc.
     if (*ptr).ref_cnt.fetch_sub(1, Ordering::Release) != 1 {
+        #[cfg(tokio_rs_bytes_verif)]
+        crate::verif::point(crate::verif::pt::RELEASE_NOT_LAST);
         return;
     }
 
@@ -1587,6 +1621,8 @@ unsafe fn release_shared(ptr: *mut Shared) {
     //
     // Thread sanitizer does not support atomic fences. Use an atomic load
     // instead.
+    #[cfg(tokio_rs_bytes_verif)]
+    crate::verif::point(crate::verif::pt::RELEASE_LAST);
     (*ptr).ref_cnt.load(Ordering::Acquire);
 
     // Drop the data
